@@ -119,6 +119,28 @@ Definition op_out_eqb (a b : op_out) : bool :=
   | _, _ => false
   end.
 
+(* one step of the peer on a shared connection; [i] = index of the member stream *)
+Inductive gstep :=
+| GHead (i : N)                                  (* the member's next HEADERS frame (interim or final) *)
+| GData (i off len pad : N) (e : bool)           (* DATA: slice of member i's body, padding, END_STREAM *)
+| GTrailers (i : N)
+| GGoAway                                        (* GOAWAY(NO_ERROR) with a last-stream-id covering every member *)
+| GPing.
+
+Inductive gmember :=
+| GMember (is_head : bool) (body : bspec) (heads : list (bytes * list mfield * bool))
+          (trailers : option (list mfield)) (has_body : bool) (m : mode) (pat : list N)
+          (o_noresp : bool) (o_code : Z) (o_header : hmap) (o_cl : Z) (o_trailer : hmap) (o : obs_api).
+
+Definition member_body (g : gmember) : bytes :=
+  match g with GMember _ body _ _ _ _ _ _ _ _ _ _ _ => expand_body body end.
+
+Definition frames_of_evs (evs : list h2ev) : list h2frame :=
+  flat_map (fun e => match e with
+                     | H2Data p fin => [{| fd_data := p; fd_pad := 0; fd_end := fin |}]
+                     | _ => []
+                     end) evs.
+
 Inductive c02_case :=
 | H1Case (meth : bytes) (body : bspec) (wire : list piece)
          (cut : option N)           (* the peer closed the connection after this many bytes *)
@@ -136,6 +158,10 @@ Inductive c02_case :=
          (has_body : bool) (m : mode) (pat : list N)
          (o_noresp : bool) (o_code : Z) (o_header : hmap) (o_cl : Z) (o_trailer : hmap) (o : obs_api)
          (o_interims : list (Z * hmap))
+(* several exchanges in flight on ONE HTTP/2 connection: what the peer wrote on the connection,
+   in order (frames of the member streams interleaved, PINGs, a graceful GOAWAY covering all
+   of them), and each member's own data and observation *)
+| H2GroupCase (sched : list gstep) (members : list gmember)
 (* HTTP/3: HEADERS frames, DATA frames as slices of the body, trailer fields *)
 | H3Case (is_head : bool) (body : bspec) (heads : list (bytes * list mfield))
          (parts : list (N * N)) (trailers : option (list mfield))
@@ -213,6 +239,28 @@ Definition c02_check (c : c02_case) : bool :=
       let ps := map (fun x => slice bd (fst x) (snd x)) parts in
       mux_matches ref (h3_exchange is_head hs ps trailers m sizes) o_noresp o_code o_header o_cl o_trailer o &&
       (o_noresp || interims_eqb (h3_interim_heads hs) o_interims)
+  | H2GroupCase sched members =>
+      let bodies := map member_body members in
+      let n := N.of_nat (length members) in
+      let conn := flat_map (fun st => match st with
+                    | GHead _ => []
+                    | GData i off len pad e =>
+                        [CFrame i (H2Data (slice (nth (N.to_nat i) bodies []) off len) e)]
+                    | GTrailers i => [CFrame i H2Trailers]
+                    | GGoAway => [CGoAway n]
+                    | GPing => [CPing]
+                    end) sched in
+      forallb (fun ig =>
+        match ig with
+        | (i, GMember is_head body heads trailers has_body m pat o_noresp o_code o_header o_cl o_trailer o) =>
+            let bd := expand_body body in
+            let ref := if has_body then bd else [] in
+            let sizes := cycle_sizes (S (S (length bd))) pat in
+            let hs := map (fun x => {| hh_status := fst (fst x); hh_fields := snd (fst x); hh_end := snd x |}) heads in
+            let evs := stream_view i conn in
+            mux_matches ref (h2_exchange_after is_head hs (frames_of_evs evs) trailers [] m sizes)
+                        o_noresp o_code o_header o_cl o_trailer o
+        end) (combine (map N.of_nat (seq 0 (length members))) members)
   | FileCase dir pre steps obs => list_eqb store_eqb (download_all pre dir steps) obs
   | ApiCase code body has_body disable save cap cb result tf ops o_err o_out o_cbs o_unm o_outs =>
       let bd := if has_body then expand_body body else [] in
